@@ -1209,7 +1209,12 @@ class DomainMapping(CanBehaveLikeAVariable[T], ABC):
         self._yield_when_false_ = yield_when_false
         self._child_._eval_parent_ = self
         if self._id_ in sources:
-            yield sources
+            # the same expression object occurs a second time in the condition and is bound already: its truth is that of
+            # the value it is bound to, not whatever the flag held when this generator was entered.
+            value = sources[self._id_].value
+            self._is_false_ = bool(value) if self._invert_ else not value
+            if yield_when_false or not self._is_false_:
+                yield sources
             return
         child_val = self._child_._evaluate_as_value_(sources)
         for child_v in child_val:
@@ -1646,7 +1651,10 @@ class Comparator(BinaryOperator):
         self._yield_when_false_ = yield_when_false
 
         if self._id_ in sources:
-            yield sources
+            # the same comparison object occurs a second time in the condition and is bound already (to its result).
+            self._is_false_ = not sources[self._id_].value
+            if self._yield_when_false_ or not self._is_false_:
+                yield sources
             return
 
         if self._caching_enabled_():
